@@ -39,7 +39,9 @@ LEVEL_TEXT = (
     "unary operation or join issued with all combinations of preferred_engine in {S, T, third engine}, backtrack, "
     "transfer, require_preferred_engine (24 calls per tree for unary operations; join: backtrack x transfer x fixed side).  "
     "The same request is repeated on a processed base tree and on a twin tree (same names, other rows); a user-defined "
-    "RowFilter that keeps the base-class commute() is requested with every option combination (it must stay in the tree)."
+    "RowFilter that keeps the base-class commute() is requested with every option combination (it must stay in the tree).  "
+    "One base in five is forked: a chain in T of two branches transferred from upstream, each with its own operations; after "
+    "join requests the join's predicate object is re-used in a backtracked selection on the same tree."
 )
 LEVEL_NOTE = "trusts: ev_multi + labels, the harness Processor, SQLite; P1, P4, P8; joins only with S = SQL (the iteration engine does not execute joins)"
 RULE = (
@@ -92,7 +94,21 @@ def st_case(draw, tier, p_restricted=0, p_mat=1):
                 node = draw(st_unary_node(base, schema(base, leaves), universe, UNARY, cfg))
             if node is not None:
                 base = node
-    base = ("xfer", base, T)
+    if draw(st.integers(0, 9)) < 2:
+        # forked base: a chain in T whose branches were both transferred from upstream, each with its own
+        # schema-preserving operations (a backtracked operation would have to be distributed over the branches)
+        keep = ("sel", "sort", "dedup", "slice")
+        branches = []
+        for _b in range(2):
+            br = ("xfer", base, T)
+            for _ in range(draw(st.integers(0, 2))):
+                node = draw(st_unary_node(br, schema(br, leaves), universe, keep, cfg))
+                if node is not None:
+                    br = node
+            branches.append(br)
+        base = ("chain", branches[0], branches[1])
+    else:
+        base = ("xfer", base, T)
     for _ in range(draw(st.integers(0, 4))):
         cols = schema(base, leaves)
         if draw(st.integers(0, 9)) < p_mat:
